@@ -25,7 +25,7 @@ use vcore::{Ctx, Spec};
 const SPEC: Spec = Spec {
     prop: "C19",
     level: "exploration",
-    rule: "validation: case = (type, byte string); bounded-exhaustive over all byte strings of length 0..=3 (quick: 0..=2 except FileName and Path) in blocks of 256 strings sharing a prefix, plus proptest strings from a token grammar (legal characters, separators, '.'/'..', NUL, control characters, reserved characters, invalid and multi-byte UTF-8, 'iox2://', stretched to capacity-2..capacity+2) with a second string for composition and up to 5 edit operations; oracle = reference predicate written from the rustdoc / conformance tests, round trip, type-specific safety statements, composition and normalisation laws; non-trivial = a single-byte substitution / insertion / deletion neighbour has the opposite documented verdict (verified against the constructor); isolation: case = (prefix relation in {equal, same length, +digits, +base64url chars, +other chars, unrelated}, root relation in {same, siblings, nested x3}, population A, population B, optional dead node per domain, optional traced application life cycle in B); oracle = location rule for everything created (scan + system-call paths) and non-interference of list / does_exist / open / dead-node cleanup / life cycle / shutdown; non-trivial = two different domains that share the root or whose prefixes are in the prefix-of relation; distinct = hash of the case",
+    rule: "validation: case = (type, byte string); bounded-exhaustive over all byte strings of length 0..=3 (quick: 0..=2 except FileName, Path and FilePath) in blocks of 256 strings sharing a prefix, plus proptest strings from a token grammar (legal characters, separators, '.'/'..', NUL, control characters, reserved characters, invalid and multi-byte UTF-8, 'iox2://', stretched to capacity-2..capacity+2) with a second string for composition and up to 5 edit operations; oracle = reference predicate written from the rustdoc / conformance tests, round trip, type-specific safety statements, composition and normalisation laws; non-trivial = a single-byte substitution / insertion / deletion neighbour has the opposite documented verdict (verified against the constructor); isolation: case = (prefix relation in {equal, same length, +digits, +base64url chars, +other chars, unrelated}, root relation in {same, siblings, nested x3}, population A, population B, optional dead node per domain, optional traced application life cycle in B); oracle = location rule for everything created (scan + system-call paths) and non-interference of list / does_exist / open / dead-node cleanup / life cycle / shutdown; non-trivial = two different domains that share the root or whose prefixes are in the prefix-of relation; distinct = hash of the case",
     assumptions: &[
         "':' is reserved on Windows only and every validator guards it with cfg(target_os = \"windows\"); the phrase 'characters which would be legal on some platforms are forbidden as well' is not read as covering it (otherwise FileName/Path/FilePath accept an undocumented-illegal character on Linux)",
         "UserName / GroupName: '.' anywhere and a trailing '$' are legal on some POSIX systems and mentioned nowhere in the documentation or tests; both verdicts are accepted",
